@@ -3,11 +3,17 @@ use crate::Property;
 
 pub mod c01;
 pub mod c02;
+pub mod c03;
+pub mod c04;
+pub mod c05;
 
 pub fn lookup(id: &str) -> Option<&'static dyn Property> {
     let p: &'static dyn Property = match id {
         "C01" => &c01::C01,
         "C02" => &c02::C02,
+        "C03" => &c03::C03,
+        "C04" => &c04::C04,
+        "C05" => &c05::C05,
         _ => return None,
     };
     Some(p)
